@@ -43,7 +43,7 @@ PBT_PROPERTY(dary_scale) {
     const unsigned ck = CKMAP[src.weighted({3, 2, 1})]; // external priority table, less, greater
     static const size_t NMAXV[] = {600, 64, 4000, 12000};
     const unsigned mag = (unsigned)src.weighted({3, 2, 2, 1});
-    const size_t NMAX = NMAXV[mag];
+    const size_t NMAX = A == 1 ? std::min<size_t>(NMAXV[mag], 3000) : NMAXV[mag]; // arity 1 is a sorted list: O(n) per operation
     const unsigned fc0 = (unsigned)src.weighted({4, 3, 2, 1});
     const unsigned fm = (unsigned)src.range(0, 3);
     const unsigned ord = (unsigned)src.range(0, 2);
@@ -172,6 +172,25 @@ PBT_PROPERTY(dary_scale) {
         }
         return v;
     };
+    //! n elements arranged as a valid heap array whose layout the harness knows (generation aid only, never used by the
+    //! oracle): sorted by the heap's order level by level, siblings shuffled, and the smallest child of every node on
+    //! the path root -> last internal node lies on that path: the next pop sifts down to exactly the last internal
+    //! node (which has 1..arity children depending on n).
+    auto steered_layout = [&](size_t n) {
+        std::vector<int> v = gen_keys(n, 1);
+        for (size_t g = 1; g < n; g += A) {
+            size_t e = std::min(n, g + A);
+            for (size_t i = g; i + 1 < e; ++i) std::swap(v[i], v[i + rng.below(e - i)]);
+        }
+        if (n >= 2)
+            for (size_t c = (n - 2) / A; c > 0; c = (c - 1) / A) {
+                size_t g = ((c - 1) / A) * A + 1, e = std::min(n, g + A), mi = g;
+                for (size_t i = g + 1; i < e; ++i)
+                    if (pv(v[i]) < pv(v[mi])) mi = i;
+                std::swap(v[c], v[mi]);
+            }
+        return v;
+    };
     auto log_keys = [&](const std::vector<int>& v) {
         std::ostringstream os;
         os << v.size() << " keys";
@@ -240,7 +259,7 @@ PBT_PROPERTY(dary_scale) {
     const unsigned max_sub = NMAX <= 4000 ? 1500 : 600;
     while (src.more() && nops < 60 && nsub < max_sub) {
         ++nops;
-        unsigned op = (unsigned)src.weighted({5, 5, 5, 2, 2, 1, 1, 1});
+        unsigned op = (unsigned)src.weighted({5, 5, 5, 2, 2, 1, 1, 1, 5});
         unsigned m = 1 + (unsigned)src.range(0, 63);
         switch (op) {
         case 0: // steady state: pop + push
@@ -306,6 +325,30 @@ PBT_PROPERTY(dary_scale) {
             pbt::label("copy_move");
             nsub += 8;
             check("copy/move", true);
+            break;
+        }
+        case 8: { // known layout steered towards the last internal node, then a few pops
+            pbt::label("steered_pops");
+            unsigned fc = (unsigned)src.weighted({4, 3, 2, 1});
+            std::vector<int> lay = steered_layout(gen_size(fc));
+            const size_t n = lay.size();
+            if ((m & 3) == 3 && n <= 6000) {
+                if (msize) {
+                    PBT_LOG("clear()\n");
+                    h.clear();
+                    m_clear();
+                }
+                PBT_LOG("known layout by " << n << " pushes in array order\n");
+                pbt::label("fill_by_push");
+                for (size_t i = 0; i < n; ++i) do_push(lay[i], i & 1);
+            } else do_build(m % 3, lay);
+            nsub += 8;
+            check("steered build", true);
+            unsigned c = 1 + (unsigned)src.range(0, 3);
+            for (unsigned j = 0; j < c && msize; ++j, nsub += 2) {
+                do_pop(j & 1);
+                check("steered pop", true);
+            }
             break;
         }
         default: {
